@@ -617,7 +617,7 @@ def stream_swap(ctx):
     rng = ctx.rng
     toks = ['a', 'b', 'c', '', 'p/x', 'é']
     cases = []
-    n = ctx.n(500, 4000)
+    n = ctx.n(400, 4000)
     # exhaustive core: every (function, arg given?, effect, exception)
     for which in ('load', 'info'):
         for given in (True, False):
@@ -753,7 +753,10 @@ def _route_task(case):
         def is_stub(self):
             return False
 
-    st = types.SimpleNamespace()
+    class State:
+        pass
+
+    st = State()
     st.memoize_cache = {}
     st.compiled_subprocess = Sub()
     st.environment = Envn()
@@ -764,7 +767,7 @@ def _route_task(case):
 
     def fake_lpm(inference_state, file_io, import_names=None, is_package=False):
         log.append(('lpm', str(file_io.path), tuple(import_names), is_package))
-        return types.SimpleNamespace(kind='pymodule')
+        return object()
 
     res = dict(ok=True)
     import warnings
@@ -830,7 +833,7 @@ def stream_route(ctx):
                 for unsafe in (False, True):
                     for top in (True, False):
                         cases.append((auto, names, fr, unsafe, ['/b0', '', '/b1'], ['/proj', '/b1', '/proj/pkg', '/b0', ''], top))
-    n = ctx.n(900, 6000)
+    n = ctx.n(800, 6000)
     while len(cases) < n:
         auto = rng.sample(name_pool, rng.randint(0, 3))
         names = [rng.choice(name_pool) for _ in range(rng.randint(1, 3))]
@@ -1406,7 +1409,8 @@ def _sentinel_task(case, unsafe=False):
                         h0 = None
                         out['errors']['probe:' + type(e).__name__] = 1
                     if h0:
-                        check_helper_modules(h0, 'first contact')
+                        check_helper_modules(h0, dict(buffer=bi, query=['<first-contact>', 0, 0], option=buf['option'],
+                                                      path=buf['path']))
                 queries = buf['queries'] if script is not None else []
                 for qi, q in enumerate([('<construct>', 0, 0)] + list(queries)):
                     where = dict(buffer=bi, query=list(q), option=buf['option'], path=buf['path'])
@@ -1424,11 +1428,15 @@ def _sentinel_task(case, unsafe=False):
                             out['errors'][k] = out['errors'].get(k, 0) + 1
                     host1 = _host_snapshot()
                     log = list(_LOG)
+                    lm_proj = [[e[1], [os.path.relpath(d, root) for d in e[2] if _under(d, root)]]
+                               for e in log if e[0] == 'lm']
+                    lm_proj = [x for x in lm_proj if x[1]][:20]
+                    where['imports_searching_project'] = lm_proj
                     # ---- sentinels
                     now = set(_fired(sdir, tag))
                     if now - seen_fired:
                         finding('sentinel-fired', fired=sorted(now - seen_fired), where=where,
-                                log=[list(map(str, e[:3])) for e in log if e[0] in ('lbm', 'lm', 'spawn')][:12])
+                                spawned=[e[1][0].replace(root, '$R') for e in log if e[0] == 'spawn'])
                         seen_fired |= now
                     # ---- host state
                     if host1['sys_path'] != host0['sys_path']:
@@ -1477,7 +1485,6 @@ def _sentinel_task(case, unsafe=False):
                         elif h0 and h1:
                             finding('helper-restarted', where=where)
                         if h1:
-                            check_helper_modules(h1, where)
                             h0 = h1
                     # ---- requests of this query
                     pending = None
@@ -1536,6 +1543,10 @@ def _sentinel_task(case, unsafe=False):
         except OSError:
             pass
         shutil.rmtree(root, ignore_errors=True)
+        if out['findings'] or unsafe:
+            # project code ran inside the (long-lived, shared) helper: later cases get a fresh one
+            script = project = None
+            common.drop_parent_helper()
     out['host_lazy'] = sorted(out['host_lazy'])
     out['helper_new'] = sorted(out['helper_new'])
     return out
@@ -1553,6 +1564,7 @@ def predicted_by_model(case, f):
     opt = f.get('where', {}).get('option', '')
     if not opt.startswith('default'):
         return None
+    reqs = (f.get('where') or {}).get('imports_searching_project') or []
     if f['cls'] in ('sentinel-fired',):
         fired = [case['tree']['sentinels'].get(n, n) for n in f['fired']]
         interp = [x for x in fired if x == 'venv/bin/python']
@@ -1563,19 +1575,31 @@ def predicted_by_model(case, f):
                 return None
             mech.append('environment_path')
         if mods:
-            # with unsafe=true the model routes exactly auto-import names (gi...) to a real import that
-            # searches the project; the files such an import can run are the project's gi module/package
+            # with unsafe=true the model routes auto-import names and source-less modules to a real import
+            # whose search path contains project directories (import_route, validated in situ against Coq);
+            # such an import runs the top-level package/module of the dotted name found in those directories
             if not pj.get('load_unsafe_extensions'):
                 return None
-            if not all(x == 'gi.py' or x.startswith('gi/') or x in ('lib/gi.py', 'lib.zip/gi.py') for x in mods):
-                return None
+            for x in mods:
+                ok = False
+                for dotted, dirs in reqs:
+                    for d in dirs:
+                        pre = '' if d == '.' else d + '/'
+                        if x.startswith(pre):
+                            top = x[len(pre):].split('/')[0]
+                            top = top.split('.')[0]
+                            if top == dotted.split('.')[0]:
+                                ok = True
+                if not ok:
+                    return None
             mech.append('load_unsafe_extensions')
         return '+'.join(mech) if mech else None
     if f['cls'] == 'interpreter-from-project' and pj.get('environment_path'):
         return 'environment_path'
-    if f['cls'] == 'helper-module-from-project' and pj.get('load_unsafe_extensions') and \
-            (f.get('module', '').split('.')[0] == 'gi'):
-        return 'load_unsafe_extensions'
+    if f['cls'] == 'helper-module-from-project' and pj.get('load_unsafe_extensions'):
+        top = f.get('module', '').split('.')[0]
+        if any(dotted.split('.')[0] == top for dotted, dirs in reqs):
+            return 'load_unsafe_extensions'
     return None
 
 
@@ -1589,8 +1613,8 @@ def stream_sentinel(ctx, broken_tie=False):
     root_base = os.path.join(ctx.tmp, 'trees')
     os.makedirs(root_base, exist_ok=True)
     os.environ['C12_SENTINEL_DIR'] = sdir
-    ncase = ctx.n(48, 400) * (2 if broken_tie else 1)
-    nq = ctx.n(24, 36)
+    ncase = ctx.n(40, 400) * (2 if broken_tie else 1)
+    nq = ctx.n(21, 36)
     cases = []
     fixed_variants = ['plain', 'plain', 'json-benign', 'json-unsafe', 'json-env', 'json-both']
     for i in range(ncase):
